@@ -382,6 +382,9 @@ func runCheck(prop, tier, only string, jobs, seed int, noReplay bool, dump strin
 			a.Unknown += st.Unknown
 			a.Errors += st.Errors
 		}
+		for _, u := range ex.Budget {
+			ev.Coverage.Undecided = append(ev.Coverage.Undecided, fmt.Sprintf("%s[%s] exploration: %s", r.t.harness, r.t.caseStr(), u))
+		}
 		for _, u := range ex.Unsupp {
 			broken = append(broken, fmt.Sprintf("%s[%s]: %s", r.t.harness, r.t.caseStr(), firstLine(u)))
 		}
@@ -599,8 +602,10 @@ func runTask(l *loaded, t *task, tier, seed int, dump string) *taskResult {
 	ex.Cases = t.cases
 	ex.Tier = tier
 	ex.Seed = seed
+	ex.Deadline = time.Now().Add(15 * time.Minute)
 	if tier == 1 {
 		ex.FullMs = 120000
+		ex.Deadline = time.Now().Add(2 * time.Hour)
 	}
 	if v := os.Getenv("VERIF_MAXPATHS"); v != "" {
 		ex.MaxPaths, _ = strconv.Atoi(v)
